@@ -1576,6 +1576,9 @@ PyObject* Records::Write(PyObject* obj)
 	if (!PyArray_Check(obj)) {
 		throw std::runtime_error("Input must be a NumPy array object");
 	}
+	// mNrows is used by the writers as the number of rows to write; if the
+	// file is also open for reading it holds the number of rows in the file
+	npy_intp nrows_in_file = mNrows;
 	mNrows = PyArray_Size(obj);
 
 	PyArray_Descr* descr = PyArray_DESCR((PyArrayObject *) obj);
@@ -1591,6 +1594,11 @@ PyObject* Records::Write(PyObject* obj)
 		WriteAllAsBinary();
 	} else{
 		WriteRows();
+	}
+
+	if (mAction & READ) {
+		// subsequent reads through this object see the appended rows
+		mNrows += nrows_in_file;
 	}
 
 	if (mDebug) debugout("Finished writing");
